@@ -32,7 +32,9 @@ type concurrentTxn struct {
 func NewConcurrentTxnFrom(ctx context.Context, rootstore corekv.TxnStore, id uint64, readonly bool) *BasicTxn {
 	rootTxn := rootstore.NewTxn(readonly)
 	rootConcurentTxn := &concurrentTxn{Txn: rootTxn}
-	multistore := NewMultistore(rootTxn)
+	// The stores must go through the concurrentTxn (and its mutex), not through the underlying
+	// transaction, otherwise concurrent API calls operate on the unprotected transaction.
+	multistore := NewMultistore(rootConcurentTxn)
 
 	return &BasicTxn{
 		Multistore: multistore,
@@ -63,6 +65,59 @@ func (t *concurrentTxn) Set(ctx context.Context, key []byte, value []byte) error
 	t.mu.Lock()
 	defer t.mu.Unlock()
 	return t.Txn.Set(ctx, key, value)
+}
+
+// Iterator returns an iterator whose operations are serialized with the other operations
+// of the transaction.
+func (t *concurrentTxn) Iterator(ctx context.Context, opts corekv.IterOptions) (corekv.Iterator, error) {
+	t.mu.Lock()
+	defer t.mu.Unlock()
+	iter, err := t.Txn.Iterator(ctx, opts)
+	if err != nil {
+		return nil, err
+	}
+	return &concurrentIterator{Iterator: iter, mu: &t.mu}, nil
+}
+
+type concurrentIterator struct {
+	corekv.Iterator
+	mu *sync.Mutex
+}
+
+func (i *concurrentIterator) Next() (bool, error) {
+	i.mu.Lock()
+	defer i.mu.Unlock()
+	return i.Iterator.Next()
+}
+
+func (i *concurrentIterator) Key() []byte {
+	i.mu.Lock()
+	defer i.mu.Unlock()
+	return i.Iterator.Key()
+}
+
+func (i *concurrentIterator) Value() ([]byte, error) {
+	i.mu.Lock()
+	defer i.mu.Unlock()
+	return i.Iterator.Value()
+}
+
+func (i *concurrentIterator) Seek(key []byte) (bool, error) {
+	i.mu.Lock()
+	defer i.mu.Unlock()
+	return i.Iterator.Seek(key)
+}
+
+func (i *concurrentIterator) Reset() {
+	i.mu.Lock()
+	defer i.mu.Unlock()
+	i.Iterator.Reset()
+}
+
+func (i *concurrentIterator) Close() error {
+	i.mu.Lock()
+	defer i.mu.Unlock()
+	return i.Iterator.Close()
 }
 
 // Sync executes the transaction.
